@@ -126,6 +126,17 @@ def run(res, proof):
             o3 = step(hl, ho, l)
             if o3.startswith('ret h8'):
                 res.violation('reaction:different-request-identified', {'history': list(hl)}, o3, 'another object')
+        # moving a species across the arrow (same concatenation of the sorted lists, other split point) denotes a
+        # different reaction, which can be created next to this one
+        inv = {id(v): k for k, v in iw.held.items()}
+        cat = [inv[id(c)] for c in rs + ps]
+        for k in range(1, len(cat)):
+            if k == len(r):
+                continue
+            o4 = step(hl, ho, 'mk.rxn\t0\t-\t%s\t%s\t%s' % (t, hs(cat[:k]), hs(cat[k:])))
+            w4 = o4.split(' ')
+            if not (len(w4) >= 3 and w4[0] == 'ret' and w4[1] != 'h8' and w4[2] in ('new', 'old')):
+                res.violation('reaction:species-moved-across-arrow', {'history': list(hl)}, o4, 'a reaction other than h8')
         del x, rs, ps
         lines.extend(hl); impl.extend(ho)
     # ---- reactions between overlapping macrostates that share their canonically smallest member
